@@ -508,3 +508,161 @@ Lemma rx_fixed_same_schedules :
                [XStart 1; XSendFail 0; XDereg 0; XArrive 1; XLookup; XUnhandled] = Some s /\
              rx_h s = HIdle).
 Proof. split; eexists; (split; [vm_compute; reflexivity|reflexivity]). Qed.
+
+(* ====================================================================== *)
+(* MUC (pinned behaviour)                                                  *)
+(* ====================================================================== *)
+
+Lemma mcall_step_calls s i f s' :
+  mcall_step s i f = Some s' ->
+  exists c c', nth_error (mu_calls s) i = Some c /\ f c = Some c' /\
+               mu_calls s' = upd (mu_calls s) i c' /\ mu_h s' = mu_h s /\
+               mu_joinbuf s' = mu_joinbuf s /\ mu_gone s' = mu_gone s.
+Proof.
+  unfold mcall_step. destruct (nth_error (mu_calls s) i) as [c|] eqn:Hi; [|discriminate].
+  destruct (f c) as [c'|] eqn:Hf; [|discriminate]. intro H. injection H as <-.
+  exists c, c'. cbn. auto.
+Qed.
+
+(* how one step can change a call *)
+Definition mcall_succ (l : muclabel) (i : nat) (c c' : mcall) : Prop :=
+  m_kind c' = m_kind c /\
+  (m_pc c' = m_pc c \/
+   (m_pc c = MSpawned /\ m_pc c' = MWait /\ l = MEnter i) \/
+   (m_pc c = MWait /\ m_pc c' = MRet MCtxErr /\ l = MCtx i /\ m_canc c = true) \/
+   (m_pc c = MWait /\ m_pc c' = MRet MErr /\ l = MErrRecv i /\ m_err c = true) \/
+   (m_pc c = MWait /\ m_pc c' = MRet MJoined /\ l = MJoinRecv i) \/
+   (m_pc c = MWait /\ m_pc c' = MRet MLeft /\ l = MDepartTo i)) /\
+  (m_canc c' = m_canc c \/ l = MCancel i) /\
+  (m_err c' = m_err c \/ l = MErrReply i).
+
+Lemma mcall_succ_refl l i c : mcall_succ l i c c.
+Proof. unfold mcall_succ. auto. Qed.
+
+Lemma muc_step_succ s l s' i c :
+  muc_step s l = Some s' -> nth_error (mu_calls s) i = Some c ->
+  exists c', nth_error (mu_calls s') i = Some c' /\ mcall_succ l i c c'.
+Proof.
+  intros H Hi.
+  assert (Same : mu_calls s' = mu_calls s -> exists c', nth_error (mu_calls s') i = Some c' /\ mcall_succ l i c c')
+    by (intro E; rewrite E; exists c; split; [exact Hi|apply mcall_succ_refl]).
+  assert (Upd : forall k f, mcall_step s k f = Some s' ->
+            (forall x x', f x = Some x' -> mcall_succ l k x x') ->
+            exists c', nth_error (mu_calls s') i = Some c' /\ mcall_succ l i c c').
+  { intros k f Hs Hf. destruct (mcall_step_calls s k f s' Hs) as [x [x' [Hk [Hfx [Hc _]]]]].
+    rewrite Hc. destruct (Nat.eq_dec i k) as [->|N].
+    - rewrite Hk in Hi. injection Hi as <-. exists x'. split; [eapply nth_upd_eq; eauto|auto].
+    - exists c. split; [rewrite nth_upd_neq by congruence; exact Hi|apply mcall_succ_refl]. }
+  destruct l; cbn [muc_step] in H.
+  - destruct (mu_calls s); [|discriminate]. destruct i; discriminate.
+  - destruct (mu_calls s) eqn:E; [discriminate|]. injection H as <-. cbn. rewrite <- E.
+    exists c. split; [apply nth_app_old; exact Hi|apply mcall_succ_refl].
+  - eapply Upd; eauto. intros x x' Hf. cbv beta in Hf. destruct (m_pc x) eqn:E; try discriminate.
+    injection Hf as <-. unfold mcall_succ. cbn. rewrite E. repeat split; auto.
+    right. left. auto.
+  - eapply Upd; eauto. intros x x' Hf. injection Hf as <-. unfold mcall_succ. cbn. auto 6.
+  - eapply Upd; eauto. intros x x' Hf. cbv beta in Hf. destruct (m_pc x) eqn:E; try discriminate.
+    destruct (m_canc x) eqn:Ec; try discriminate.
+    injection Hf as <-. unfold mcall_succ. cbn. rewrite E. repeat split; auto.
+    right. right. left. auto.
+  - eapply Upd; eauto. intros x x' Hf. cbv beta in Hf.
+    destruct (is_mret (m_pc x) || m_err x); try discriminate.
+    injection Hf as <-. unfold mcall_succ. cbn. auto 6.
+  - eapply Upd; eauto. intros x x' Hf. cbv beta in Hf. destruct (m_pc x) eqn:E; try discriminate.
+    destruct (m_err x) eqn:Ee; try discriminate.
+    injection Hf as <-. unfold mcall_succ. cbn. rewrite E. repeat split; auto.
+    right. right. right. left. auto.
+  - destruct (mu_h s); try discriminate. destruct (mu_calls s) eqn:E; try discriminate.
+    destruct (mu_gone s); try discriminate. injection H as <-. apply Same. cbn. auto.
+  - destruct (mu_h s); try discriminate.
+    destruct (mu_joinbuf s); injection H as <-; apply Same; reflexivity.
+  - destruct (mu_h s) as [| |j'|]; try discriminate. destruct (Nat.eqb j j'); [|discriminate].
+    destruct (nth_error (mu_calls s) j) as [x|] eqn:Hj; [|discriminate].
+    destruct (m_pc x) eqn:E; try discriminate. injection H as <-. cbn.
+    destruct (Nat.eq_dec i j) as [->|N].
+    + rewrite Hj in Hi. injection Hi as <-. eexists. split; [eapply nth_upd_eq; eauto|].
+      unfold mcall_succ. cbn. rewrite E. repeat split; auto. right. right. right. right. left. auto.
+    + exists c. split; [rewrite nth_upd_neq by congruence; exact Hi|apply mcall_succ_refl].
+  - destruct (mu_h s) as [| |j'|]; try discriminate.
+    destruct (nth_error (mu_calls s) j') as [x|]; [|discriminate].
+    destruct (mctx_done x); [|discriminate]. injection H as <-. apply Same. reflexivity.
+  - destruct (mu_h s); try discriminate. destruct (mu_calls s) eqn:E; try discriminate.
+    destruct (mu_gone s); try discriminate. injection H as <-. apply Same. cbn. auto.
+  - destruct (mu_h s); try discriminate.
+    destruct (nth_error (mu_calls s) l) as [x|] eqn:Hl; [|discriminate].
+    destruct (waiting_leave x) eqn:Ew; [|discriminate]. injection H as <-. cbn.
+    unfold waiting_leave in Ew. destruct (m_kind x); try discriminate.
+    destruct (m_pc x) eqn:E; try discriminate.
+    destruct (Nat.eq_dec i l) as [->|N].
+    + rewrite Hl in Hi. injection Hi as <-. eexists. split; [eapply nth_upd_eq; eauto|].
+      unfold mcall_succ. cbn. rewrite E. repeat split; auto. right. right. right. right. right. auto.
+    + exists c. split; [rewrite nth_upd_neq by congruence; exact Hi|apply mcall_succ_refl].
+  - destruct (mu_h s); try discriminate. destruct (existsb waiting_leave (mu_calls s)); [discriminate|].
+    injection H as <-. apply Same. reflexivity.
+Qed.
+
+(* one outcome per call *)
+Lemma muc_ret_stable_run tr : forall s s' i c o,
+  run muc_step s tr = Some s' -> nth_error (mu_calls s) i = Some c -> m_pc c = MRet o ->
+  exists c', nth_error (mu_calls s') i = Some c' /\ m_pc c' = MRet o /\ m_kind c' = m_kind c.
+Proof.
+  induction tr as [|l tr IH]; intros s s' i c o R Hi Hp; cbn in R.
+  - injection R as <-. eauto.
+  - destruct (muc_step s l) as [s1|] eqn:E; [|discriminate].
+    destruct (muc_step_succ s l s1 i c E Hi) as [c1 [H1 (K & P & _)]].
+    assert (P1 : m_pc c1 = MRet o).
+    { destruct P as [P|[P|[P|[P|[P|P]]]]]; try congruence; destruct P as [P _]; congruence. }
+    destruct (IH s1 s' i c1 o R H1 P1) as [c' [A [B C]]]. exists c'. repeat split; congruence.
+Qed.
+
+(* outcomes are legitimate *)
+Record MucInv (s : mucstate) : Prop := {
+  mi_buf : forall j, mu_joinbuf s = Some j -> j = 0 /\ exists c, nth_error (mu_calls s) 0 = Some c /\ m_kind c = MJoin;
+  mi_taken : forall j, mu_h s = MHTaken j -> j = 0 /\ exists c, nth_error (mu_calls s) 0 = Some c /\ m_kind c = MJoin;
+  mi_out : forall i c, nth_error (mu_calls s) i = Some c ->
+    match m_pc c with
+    | MRet MCtxErr => m_canc c = true
+    | MRet MErr => m_err c = true
+    | MRet MJoined => m_kind c = MJoin
+    | MRet MLeft => m_kind c = MLeave /\ mu_gone s = true
+    | _ => True
+    end
+}.
+
+Lemma MucInv_init : MucInv muc_init.
+Proof.
+  constructor; cbn; try discriminate. intros i c H. destruct (nth_nil _ _ H).
+Qed.
+
+Lemma MucInv_step s l s' : MucInv s -> muc_step s l = Some s' -> MucInv s'.
+Proof.
+  intros [Ib It Io] H.
+  assert (Hout : forall g, (mu_gone s = true -> g = true) ->
+            (forall i c', nth_error (mu_calls s') i = Some c' ->
+               (exists c, nth_error (mu_calls s) i = Some c /\ mcall_succ l i c c') \/
+               (m_pc c' = MSpawned)) ->
+            (forall i, l = MDepartTo i -> g = true) ->
+            forall i c, nth_error (mu_calls s') i = Some c ->
+            match m_pc c with
+            | MRet MCtxErr => m_canc c = true
+            | MRet MErr => m_err c = true
+            | MRet MJoined => m_kind c = MJoin
+            | MRet MLeft => m_kind c = MLeave /\ g = true
+            | _ => True
+            end).
+  { intros g Hg Hs Hd i c' Hi. destruct (Hs i c' Hi) as [[c [Hc (K & P & Cc & Ce)]]|P]; [|rewrite P; exact I].
+    specialize (Io i c Hc).
+    destruct P as [P|[P|[P|[P|[P|P]]]]].
+    - rewrite P. destruct (m_pc c) as [| |o]; auto. destruct o; auto.
+      + rewrite K. exact Io.
+      + destruct Io as [A B]. split; [congruence|auto].
+      + destruct Ce as [Ce|Ce]; [congruence|]. subst l. exact (eq_trans (eq_sym (eq_refl _)) Io) || idtac.
+        (* MErrReply on a returned call is not enabled, but succ allows it syntactically: err only grows *)
+        admit_never.
+      + destruct Cc as [Cc|Cc]; [congruence|]. admit_never.
+    - destruct P as (_ & P & _). rewrite P. exact I.
+    - destruct P as (_ & P & L & Cn). rewrite P. destruct Cc as [Cc|Cc]; [congruence|subst l; discriminate].
+    - destruct P as (_ & P & L & Cn). rewrite P. destruct Ce as [Ce|Ce]; [congruence|subst l; discriminate].
+    - destruct P as (P0 & P & L). rewrite P. admit_never.
+    - destruct P as (P0 & P & L). rewrite P. admit_never. }
+  Abort.
